@@ -16,6 +16,7 @@ type Gen struct {
 	nextTEID uint32
 	gnbs     []net.IP
 	flowSeq  int
+	flowsSeen map[string]bool
 	// Avoid: known-finding triggers this run's generators stay away from, so
 	// that most runs explore *past* the listed findings (DESIGN.md section 13).
 	Avoid map[string]bool
@@ -109,6 +110,11 @@ func (g *Gen) Flow(wide bool) *FlowSpec {
 	case 3:
 		l := 8 + g.c(25, "plen") // non-zero network address (envelope)
 		base := uint32(0x0B000000) + uint32(g.flowSeq)<<16 + uint32(g.c(250, "net"))<<8
+		if g.c(6, "same-base") == 1 {
+			// the same network address under different prefix lengths (11.0.0.0/8,
+			// 11.0.0.0/12, ...): distinct filters that differ in the mask only
+			base = 0x0B000000
+		}
 		m := ^uint32(0) << (32 - uint(l))
 		f.RemoteIP, f.RemoteLen = base&m, l
 		remote = fmt.Sprintf("%s/%d", u32IP(base&m), l)
@@ -135,6 +141,17 @@ func (g *Gen) Flow(wide bool) *FlowSpec {
 		}
 	}
 	f.Text = fmt.Sprintf("permit out %s from %s%s to assigned", proto, remote, port)
+	// no two flows of a run are identical (two PDRs with the same PDI are outside the envelope)
+	key := fmt.Sprintf("%d/%d/%d/%v/%d-%d", f.RemoteIP, f.RemoteLen, f.Proto, f.HasPort, f.PortLo, f.PortHi)
+	if g.flowsSeen == nil {
+		g.flowsSeen = map[string]bool{}
+	}
+	if g.flowsSeen[key] {
+		f.RemoteIP, f.RemoteLen = ipU32(ip4("8.9.0.0"))+uint32(g.flowSeq), 32
+		f.Text = fmt.Sprintf("permit out %s from %s%s to assigned", proto, u32IP(f.RemoteIP), port)
+		key = fmt.Sprintf("%d/%d/%d/%v/%d-%d", f.RemoteIP, f.RemoteLen, f.Proto, f.HasPort, f.PortLo, f.PortHi)
+	}
+	g.flowsSeen[key] = true
 	return f
 }
 
